@@ -47,6 +47,8 @@ def generate(repo):
     idx = [int(x) for x in re.findall(r"lsf_output\[(\d+)\]", us)]
     out.append("Definition update_state_indices : list nat := [" + "; ".join(map(str, idx)) + "].")
     cases = re.findall(r"case\s+(\d+)\s*:[^;]*?state_\s*=\s*State::(\w+)", us)
+    if not cases or not idx:
+        raise AnchorError("update_state: the switch over the packet type (case N: state_ = State::X) / the lsf_output[i] bit tests were not found")
     out.append("Definition update_state_cases : list (nat * nat) := [" + "; ".join(f"({c}, {0 if s == 'BASIC_PACKET' else 1})" for c, s in cases) + "].  (* packet_type -> 0 BASIC / 1 FULL *)")
     dl = find1(r"DecodeResult\s+decode_lich\s*\(.*?\)\s*\{(.*?)\n    \}", h, "decode_lich").group(1)
     m = find1(r"fragment_number\s*=\s*\(\s*fragment_number\s*>>\s*(\d+)\s*\)\s*&\s*(\d+)", dl, "fragment number extraction")
